@@ -128,6 +128,9 @@ class List(Expression):
 def _bound_name(value):
     if getattr(value, 'is_reference', False):
         return value.name
+    # "00" and "01" are the numbers 0 and 1 (and no Python literals).
+    if isinstance(value, str) and value.isdigit():
+        return int(value)
     return value
 
 
